@@ -228,6 +228,10 @@ def _run(prop, reg, tier, seed, work, known, t0, replay):
                                 idxs.add(i)
                     if not idxs:
                         break
+                    if lspec.get("repro_full"):
+                        # schedule-dependent legs: the behaviour needs the whole concurrent workload, not the one
+                        # scenario it happened to show up in; the same class must appear again in a full re-run
+                        idxs = None
                     tf2 = leg.drive(binary, only=idxs, tag="repro%d" % attempt)
                     tv2, rej2, invf2 = leg.validate(tf2)
                     traces2 = core.load_traces(tf2)
